@@ -297,6 +297,44 @@ def _check_tg_history(case):
     return n, "ok", (op1[0], prime[0] if prime else None, len(m0[0])), viols
 
 
+def _check_failed_after_growth(case):
+    """a tier the caller still holds is edited in place after addTier (it outgrows the textgrid's span; the textgrid is then inconsistent,
+    which validate() reports) - a mutator that FAILS afterwards must still leave names, order, tiers and span exactly as they were"""
+    m0, gi, op = case
+    tg = c12.build(m0)
+    t = tg.tiers[gi]
+    hi = tg.maxTimestamp
+    if t.tierType == constants.INTERVAL_TIER:
+        call(t.insertEntry, Interval(hi + 1.0, hi + 2.0, "grown"), "error", "silence")
+    else:
+        call(t.insertEntry, Point(hi + 1.5, "grown"), "error", "silence")
+    before = snap_tg(tg)
+    st, r, _ = call(c12._apply, tg, op) if op[0] in ("add", "rm", "ren", "rep") else call(_tg_extra, tg, op, c12.build(((("a", 0),), 0.0, 2.0)))
+    after = snap_tg(tg)
+    viols = []
+    if st == "exc" and after != before:
+        viols.append(Viol("changed-on-failure", f"{op} on names={before[0]} span=({before[1]},{before[2]}) after tier {gi} had grown in place to "
+                                                f"({t.minTimestamp},{t.maxTimestamp}): raised {r!r} but the textgrid is now names={after[0]} span=({after[1]},{after[2]})"))
+    return 1, op[0] + ":" + st, (len(m0[0]), gi, op[0], st), viols
+
+
+def _failed_after_growth_cases():
+    for m0 in (((("a", 0),), 0.0, 2.0), ((("a", 0), ("b", 1)), 0.0, 2.0), ((("b", 1), ("a", 2), ("c", 3)), 0.0, 3.0)):
+        names = [nm for nm, _ in m0[0]]
+        for gi in range(len(names)):
+            for nm in names + ["zz"]:
+                for other in names + ["new"]:
+                    yield (m0, gi, ("ren", nm, other))
+                    for sl in (0, 2, 5):
+                        for mode in ("silence", "error"):
+                            yield (m0, gi, ("rep", nm, other, sl, mode))
+                for sl in (0, 5):
+                    yield (m0, gi, ("add", nm, sl, 0, "error"))
+            yield (m0, gi, ("badadd", "bogus-mode"))
+            yield (m0, gi, ("badrep", "bogus-mode"))
+            yield (m0, gi, ("badadd", "bad-index-type"))
+
+
 # ------------------------------------------------------------------ failing saves onto an existing file
 SAVE_TGS = (
     (("I", "a", ((0.0, 1.0, "x"), (1.5, 2.0, "y")), 0.0, 2.0), ("P", "p", ((0.5, "p"),), 0.0, 2.0)),
@@ -398,6 +436,11 @@ def parts(tier):
                            "the entries at the start, the middle and the end (an inserted entry may collide with dozens of entries at once): copies do not "
                            "mutate, failed mutations change nothing" % (list(D.SIZES_QUICK if quick else D.SIZES_THOROUGH),),
                       bounds={"depth": 1}, max_depth=1))
+
+    ps.append(InputPart("failed-mutators-after-in-place-growth", _failed_after_growth_cases, _check_failed_after_growth,
+                        rule="3 textgrids x each tier grown in place beyond the textgrid's span (insertEntry on the tier object) x every renameTier / replaceTier "
+                             "(name clashes, absent names, span changes under 'error') / addTier / invalid-option call: a call that raises leaves names, order, "
+                             "tiers and span as they were", bounds={}))
 
     def tiny_ops(m):
         for nm in c12.NAMES:
